@@ -18,6 +18,7 @@ import (
 
 	"github.com/AliyunContainerService/terway/plugin/datapath"
 	dtypes "github.com/AliyunContainerService/terway/plugin/driver/types"
+	dutils "github.com/AliyunContainerService/terway/plugin/driver/utils"
 	terwayTypes "github.com/AliyunContainerService/terway/types"
 )
 
@@ -185,6 +186,7 @@ func c13ChildRun(c *Ctx) {
 			break
 		}
 		dual := r.Chance(40)
+		legacy := false // a device-bound rule of an older release is present (set below)
 		var pods []*fibPod
 		external4 := net.ParseIP("8.8.8.8").To4()
 		external6 := net.ParseIP("2001:db8::8")
@@ -268,6 +270,15 @@ func c13ChildRun(c *Ctx) {
 				res = "err"
 			}
 			add("fib.teardown "+p.id, res)
+			if legacy {
+				// the rest of the plugin's DEL: links of the pod's namespace, then the rules of vanished devices
+				res = "ok"
+				if err := dutils.GenericTearDown(ctx, p.cns); err != nil {
+					res = "err"
+				}
+				add("fib.clean", res)
+				c.Count("kernel-clean-ip-rules")
+			}
 			_ = p.cns.Close()
 			_ = testutils.UnmountNS(p.cns)
 			c.Count("kernel-teardown")
@@ -289,6 +300,31 @@ func c13ChildRun(c *Ctx) {
 			if err := netlink.RuleAdd(stale); err == nil {
 				add(fmt.Sprintf("fib.stale 2048 4:%s/32 - %d", ipHex(staleAddr), stale.Table), "ok")
 				c.Count("kernel-stale-rule")
+			}
+		}
+		// state left by an older release on a node upgraded in place: a pod-priority rule bound to a host veth that is long gone,
+		// and the address-only rule of the same (dead) pod; the plugin's DEL cleans them up (utils.CleanIPRules, run by
+		// GenericTearDown) - and must take nothing of the living pods with them
+		if r.Chance(50) {
+			la := net.IPv4(10, 0, byte(sc), 200).To4()
+			old := netlink.NewRule()
+			old.Priority = 512
+			old.Dst = &net.IPNet{IP: la, Mask: net.CIDRMask(32, 32)}
+			old.Table = 254
+			bound := netlink.NewRule()
+			bound.Priority = 2048
+			bound.Src = &net.IPNet{IP: la, Mask: net.CIDRMask(32, 32)}
+			bound.IifName = fmt.Sprintf("gone%d", sc)
+			bound.Table = 1000 + enis[0].Attrs().Index
+			if err := netlink.RuleAdd(old); err == nil {
+				if err := netlink.RuleAdd(bound); err == nil {
+					add(fmt.Sprintf("fib.stale 512 - 4:%s/32 254", ipHex(la)), "ok")
+					add(fmt.Sprintf("fib.legacy 2048 4:%s/32 - %d", ipHex(la), bound.Table), "ok")
+					legacy = true
+					c.Count("kernel-legacy-device-rule")
+				} else {
+					_ = netlink.RuleDel(old)
+				}
 			}
 		}
 		np := 2 + r.Intn(3)
